@@ -8,14 +8,32 @@ use std::collections::{BTreeMap, BTreeSet, VecDeque};
 
 /// diff(A,B) in target namespace 1; `None` when an entry lacks the target name (precondition of diff)
 pub fn diff(a: &MapSet, b: &MapSet) -> Option<DiffSet> {
-	fn name_act(a: Option<&Names>, b: Option<&Names>) -> Option<Act> {
+	diff_with(a, b, false)
+}
+
+/// What a `.tinydiff` *text* can express between A and B when entries may lack the target name: an entry present on
+/// both sides and unnamed on both carries no action of its own (its children may), one that gains its name is an
+/// addition of the name to the existing entry. `None` when the step cannot be written down: an entry that is dropped or
+/// added without a name, or that loses its name but stays (a removal takes the subtree along).
+pub fn diff_partial(a: &MapSet, b: &MapSet) -> Option<DiffSet> {
+	diff_with(a, b, true)
+}
+
+fn diff_with(a: &MapSet, b: &MapSet, partial: bool) -> Option<DiffSet> {
+	let name_act = move |a: Option<&Names>, b: Option<&Names>| -> Option<Act> {
 		Some(match (a, b) {
 			(Some(a), None) => Act::Remove(a[1].clone()?),
 			(None, Some(b)) => Act::Add(b[1].clone()?),
+			(Some(a), Some(b)) if partial => match (a[1].clone(), b[1].clone()) {
+				(None, None) => Act::None,
+				(None, Some(y)) => Act::Add(y),
+				(Some(_), None) => return None,
+				(Some(x), Some(y)) => Act::Edit(x, y),
+			},
 			(Some(a), Some(b)) => Act::Edit(a[1].clone()?, b[1].clone()?),
 			(None, None) => unreachable!(),
 		})
-	}
+	};
 	fn doc_act(a: Option<&Option<String>>, b: Option<&Option<String>>) -> Act {
 		Act::from_pair(a.cloned().flatten(), b.cloned().flatten())
 	}
